@@ -595,6 +595,25 @@ func registerIntrinsics(P *Program) {
 		key := m.Load(mt.Key(), m.ptrOperand(args[2]))
 		return m.mapAssign(args[1], key)
 	}
+	// mapaccess(typ, hmap, key) -> pointer to the value or nil (a linkname a
+	// refactoring might add next to mapassign)
+	I[codecPkg+"mapaccess"] = func(m *Machine, fn *ssa.Function, args []Value) Value {
+		T := tokType(m, args[0], "mapaccess")
+		mt, ok := T.Underlying().(*types.Map)
+		if !ok {
+			m.raise(fault("type-confusion", "mapaccess with non-map type %s", T))
+		}
+		d := m.mapData(args[1], false)
+		if d == nil {
+			return Ptr{}
+		}
+		key := m.Load(mt.Key(), m.ptrOperand(args[2]))
+		i := m.mapFind(d, key)
+		if i < 0 {
+			return Ptr{}
+		}
+		return Ptr{ID: d.Entries[i].V}
+	}
 	I[codecPkg+"maplen"] = func(m *Machine, fn *ssa.Function, args []Value) Value {
 		return m.st.Const(64, uint64(m.mapLen(args[0])))
 	}
